@@ -33,10 +33,20 @@ def gen_plan(rng, tier, i, seed):
     L, step = rng.choice(READS)
     o = WL.gene_opts(rng, small=True)
     o["cluster"] = rng.random() < 0.5
+    if rng.random() < 0.3:
+        # ambiguous catalogue ({a}, {b}, {a,b}) rich in multi-nucleotide substitutions: only the read
+        # phase tells a/b apart from ab/reference
+        o["ambiguous"] = True
+        o["kinds"] = ["mnp", "mnp", "snp", "ins", "del"]
     world = W.gen_world(rng, 1, [o], dict(L=L, step=step), margin=max(200, L + 60))
     g = world["genes"][0]
     units = WL._gen_units(rng, g)
-    if rng.random() < 0.25:
+    amb = WL._ambiguous_pair(g)
+    if amb and rng.random() < 0.6:
+        a, b, ab, ref = amb
+        units = rng.choice([[{"type": "normal", "allele": a}, {"type": "normal", "allele": b}],
+                            [{"type": "normal", "allele": ab}, {"type": "normal", "allele": ref}]])
+    elif rng.random() < 0.25:
         # the same haplotype on every copy (homozygous calls have their own code paths)
         first = next((u for u in units if u["type"] == "normal"), None)
         if first:
